@@ -184,4 +184,77 @@ theorem step_pos {o : Oracle} {op : Nat} {s s' : St} {io io' : Io} {e : Ev}
     refine ⟨rfl, trivial, by simp [Ev.req, mdTinyIo], ?_, by simp [Ev.used, hlen]; omega⟩
     simp only [Ev.used, hlen]; rfl
 
+theorem isFreshInit {s : St} (h : IsFresh s) : s.isInitialized = false := by
+  obtain ⟨p, rfl⟩ := h
+  rfl
+
+theorem fastStorage_init (s : St) (ip : Bool) (n : Nat) : (fastStorage s ip n).isInitialized = s.isInitialized := by
+  unfold fastStorage growStorage
+  split
+  · rfl
+  · split <;> rfl
+
+theorem mdEnter_init (s : St) (n : Nat) : (mdEnter s n).isInitialized = s.isInitialized := by
+  unfold mdEnter
+  split <;> rfl
+
+set_option maxRecDepth 4000 in
+/-- only the `init` atom emits the stream header, and every atom leaves an initialised encoder -/
+theorem step_initialized {o : Oracle} {op : Nat} {s s' : St} {io io' : Io} {e : Ev}
+    (h : Step o op (s, io) e (s', io')) :
+    s'.isInitialized = true ∧ (∀ b, e = .window b → s.isInitialized = false) := by
+  cases h with
+  | init hf =>
+    refine ⟨?_, fun _ _ => (isFreshInit hf)⟩
+    obtain ⟨p, rfl⟩ := hf
+    simp [ensureInitialized, St.new]
+  | copy hI hw hst hrm hc hn h =>
+    obtain ⟨_, _, _, c4, _⟩ := copy_fields hI.init h
+    exact ⟨c4.trans hI.init, fun _ hh => by cases hh⟩
+  | pad hI hc hz h =>
+    obtain ⟨f, _⟩ := pad_frame h
+    rw [St.frame_eq_iff] at f
+    exact ⟨f.2.2.2.2.1.trans hI.init, fun _ hh => by cases hh⟩
+  | push hI hc h =>
+    obtain ⟨f, _⟩ := push_frame h
+    rw [St.frame_eq_iff] at f
+    exact ⟨f.2.2.2.2.1.trans hI.init, fun _ hh => by cases hh⟩
+  | encSlow hI hop hrm hnc hnp hpend hst hgo h =>
+    obtain ⟨f, _⟩ := encodeData_frame h
+    rw [St.frame_eq_iff] at f
+    obtain ⟨_, _, _, k4, _⟩ := markAfterEncode_fields _ (slowIl op io) (slowFf op io)
+    have u8 := (updateSizeHint_fields s io.availIn).2.2.2.2.2.2.2.1
+    refine ⟨k4.trans (f.2.2.2.2.1.trans (u8.trans hI.init)), ?_⟩
+    intro b hh
+    unfold encEv at hh
+    cases hh
+  | cfc hI hop hrm hnp hfl =>
+    obtain ⟨_, _, _, c4, _⟩ := checkFlushComplete_frame s
+    exact ⟨c4.trans hI.init, fun _ hh => by cases hh⟩
+  | fastFlush hI hfm hrm hnp hpend hst hop1 hz => exact ⟨hI.init, fun _ hh => by cases hh⟩
+  | fastBlock hI hfm hop hrm hnp hpend hst hgo hnf hcap hin hfit =>
+    have e4 := (fastEncode_fields (fastS1 s io) io (o s.nEnc (fastReq op s io)) (fastReq op s io) (fastBs s io) (fastInplace s io)
+        (fastReq op s io).isLast (fastReq op s io).forceFlush).2.2.2.1
+    refine ⟨?_, fun _ hh => by cases hh⟩
+    show (fastRes o op s io).1.isInitialized = true
+    unfold fastRes
+    rw [e4]
+    unfold fastS1
+    rw [fastStorage_init]
+    exact hI.init
+  | mdEnter hI hop hentry =>
+    have u8 := (updateSizeHint_fields s 0).2.2.2.2.2.2.2.1
+    exact ⟨(mdEnter_init _ _).trans (u8.trans hI.init), fun _ hh => by cases hh⟩
+  | mdEnc hM hop hpend hne h =>
+    obtain ⟨f, _⟩ := encodeData_frame h
+    rw [St.frame_eq_iff] at f
+    refine ⟨f.2.2.2.2.1.trans hM.inv.init, ?_⟩
+    intro b hh
+    unfold encEv at hh
+    cases hh
+  | mdHead hM hop hpend hlf hst hok => exact ⟨hM.inv.init, fun _ hh => by cases hh⟩
+  | mdDone hM hop hpend hlf hst hz => exact ⟨hM.inv.init, fun _ hh => by cases hh⟩
+  | mdOut hM hop hpend hlf hst hnz hao hle => exact ⟨hM.inv.init, fun _ hh => by cases hh⟩
+  | mdTiny hM hop hpend hlf hst hnz hao hle => exact ⟨hM.inv.init, fun _ hh => by cases hh⟩
+
 end BV.Stream
